@@ -67,6 +67,10 @@ pub struct Case {
     /// peer's DISCONNECT stays tied to the value in CONNECT)
     #[serde(default)]
     pub connack_expiry: Option<u32>,
+    /// a publish sent through the non-blocking API is outstanding; its acknowledgement callback closes the sink when it is
+    /// told that the connection is gone (one more close initiator, inside the teardown)
+    #[serde(default)]
+    pub noblock: bool,
 }
 
 fn fail(c: &Case, rule: &str, detail: String) -> Failure {
@@ -204,6 +208,14 @@ pub async fn run_case(c: Case) -> Result<CaseInfo, Failure> {
     if c.hold_stop {
         app.hold(G_STOP, 0);
     }
+    let mut nb_fut = None;
+    if c.noblock {
+        eut.noblock().reenter.set(true);
+        let mut f = eut.send(crate::bed::v5::SendSpec { kind: crate::bed::v5::SendKind::NoBlock, topic: "s/nb".into(), payload: vec![1], pid: None, user_prop: None });
+        let _ = poll_once(&mut f).await;
+        nb_fut = Some(f);
+        eut.settle().await;
+    }
     let base = eut.packets().0.len();
     let mut pid = 10u16;
     // wire length at the moment the peer's DISCONNECT was seen handled
@@ -289,10 +301,12 @@ pub async fn run_case(c: Case) -> Result<CaseInfo, Failure> {
     if is_error_cause(first) && !app_packet {
         // later initiators may have written their own DISCONNECT first only when nothing separates them from the cause
         // (with the Stop notification held open the cause is still being handled when the later initiators act)
-        let alone = c.inits.len() == 1 || (c.seps.first().copied().unwrap_or(2) % 3 == 2 && !c.hold_stop);
+        // (with a non-blocking publish outstanding the acknowledgement callback closes the sink during the teardown: one more
+        // application close, which may write the single DISCONNECT before the library writes its own: which of the two names the cause is not judged)
+        let alone = (c.inits.len() == 1 || (c.seps.first().copied().unwrap_or(2) % 3 == 2 && !c.hold_stop)) && !c.noblock;
         match ours.first() {
             Some((_, d)) => {
-                if alone || c.inits[1..].iter().all(|i| is_error_cause(*i)) {
+                if alone || (c.inits[1..].iter().all(|i| is_error_cause(*i)) && !c.noblock) {
                     if d.reason == 0 {
                         return Err(Failure::new("error-named-normal", format!("C15/{}/error-named-normal/{first:?}", c.role.name()), format!("the connection ended because of {first:?} but the DISCONNECT claims normal disconnection; {}", describe())));
                     }
@@ -353,10 +367,13 @@ fn all_cases(thorough: bool) -> Vec<Case> {
             for stop in stops {
                 for connect_expiry in [false, true] {
                     for hold_stop in [false, true] {
-                        out.push(Case { role, inits: vec![*a], seps: vec![2], stop, connect_expiry, hold_stop, connack_expiry: None });
+                        out.push(Case { role, inits: vec![*a], seps: vec![2], stop, connect_expiry, hold_stop, connack_expiry: None, noblock: false });
+                        if !hold_stop {
+                            out.push(Case { role, inits: vec![*a], seps: vec![2], stop, connect_expiry, hold_stop, connack_expiry: None, noblock: true });
+                        }
                         if role == Role::V5Server && matches!(a, Init::PeerDisconnect(_) | Init::PeerDisconnectHeld) {
                             for ce in [0u32, 30] {
-                                out.push(Case { role, inits: vec![*a], seps: vec![2], stop, connect_expiry, hold_stop, connack_expiry: Some(ce) });
+                                out.push(Case { role, inits: vec![*a], seps: vec![2], stop, connect_expiry, hold_stop, connack_expiry: Some(ce), noblock: false });
                             }
                         }
                     }
@@ -369,7 +386,7 @@ fn all_cases(thorough: bool) -> Vec<Case> {
                 for sep in 0..3u8 {
                     for stop in stops {
                         for hold_stop in [false, true] {
-                            out.push(Case { role, inits: vec![*a, *b], seps: vec![sep, 2], stop, connect_expiry: false, hold_stop, connack_expiry: None });
+                            out.push(Case { role, inits: vec![*a, *b], seps: vec![sep, 2], stop, connect_expiry: false, hold_stop, connack_expiry: None, noblock: false });
                         }
                     }
                 }
@@ -380,7 +397,7 @@ fn all_cases(thorough: bool) -> Vec<Case> {
                 for b in &inits {
                     for d in &inits {
                         for seps in [[0u8, 0], [0, 2], [2, 0], [1, 1], [2, 2]] {
-                            out.push(Case { role, inits: vec![*a, *b, *d], seps: vec![seps[0], seps[1], 2], stop: StopAnswer::None, connect_expiry: false, hold_stop: seps[0] == 2, connack_expiry: None });
+                            out.push(Case { role, inits: vec![*a, *b, *d], seps: vec![seps[0], seps[1], 2], stop: StopAnswer::None, connect_expiry: false, hold_stop: seps[0] == 2, connack_expiry: None, noblock: false });
                         }
                     }
                 }
@@ -400,7 +417,7 @@ fn case_strategy(role: Role) -> BoxedStrategy<Case> {
         any::<bool>(),
         prop::option::weighted(0.3, prop::sample::select(vec![0u32, 30])),
     )
-        .prop_map(move |(inits, seps, stop, connect_expiry, hold_stop, ce)| Case { role, inits, seps, stop, connect_expiry, hold_stop, connack_expiry: if role == Role::V5Server { ce } else { None } })
+        .prop_map(move |(inits, seps, stop, connect_expiry, hold_stop, ce)| Case { role, inits, seps, stop, connect_expiry, hold_stop, connack_expiry: if role == Role::V5Server { ce } else { None }, noblock: false })
         .boxed()
 }
 
